@@ -94,6 +94,8 @@ def get_alphabet(job):
     if job.get("alpha") == "xyz":
         return alphabet3(job.get("W", 2))
     A = alphabet(job["W"], with_bool=job.get("with_bool", False))
+    if job.get("truthy"):
+        A["truth_probes"] = True
     if job.get("alpha") == "approx":
         # alphabet hygiene (DESIGN 4.2 rule 5): constraint shapes on which constraint_to_si / the VSA transfer
         # functions are known to be unsound on the pinned tree are reported under C25/C21, not again here
@@ -115,7 +117,7 @@ QUERY_OPS = ["satisfiable", "eval", "eval", "batch_eval", "min", "max", "min", "
 
 
 def random_history(rng, A, cls, kw, length, multi=False, pick=False, unsat_core=False, foldable=False,
-                   branchy=False):
+                   branchy=False, truthy=False):
     W = A["W"]
     m = (1 << W) - 1
     H = [["new", cls, kw]]
@@ -161,7 +163,7 @@ def random_history(rng, A, cls, kw, length, multi=False, pick=False, unsat_core=
             else:
                 H.append(["add", s, batch])
         elif r < 0.82:
-            q = rng.choice(QUERY_OPS)
+            q = rng.choice(QUERY_OPS if not truthy or rng.random() < 0.3 else ["is_true", "is_false"])
             if q == "satisfiable":
                 H.append([q, s, extra()])
             elif q == "eval":
@@ -174,6 +176,13 @@ def random_history(rng, A, cls, kw, length, multi=False, pick=False, unsat_core=
                 H.append([q, s, expr(), BVV(rng.randrange(m + 1), W), extra(), rng.random() < 0.5])
             else:
                 c = rng.choice(A["cons"])
+                if truthy and rng.random() < 0.5:
+                    # conjunctions / disjunctions whose second operand is valid (or contradictory) on its own
+                    xv, yv = BVS("x", W), BVS("y", W)
+                    taut = [T("UGE", yv, BVV(0, W)), T("ULE", xv, BVV(m, W)), T("SLE", yv, BVV(m >> 1, W)),
+                            T("ULT", xv, BVV(0, W)), T("UGT", yv, BVV(m, W))]
+                    c2 = rng.choice(taut + A["cons"][:8])
+                    c = T(rng.choice(["And", "Or"]), c, c2) if rng.random() < 0.7 else T(rng.choice(["And", "Or"]), c2, c)
                 H.append([q, s, c, extra()])
         elif r < 0.86:
             H.append([rng.choice(["simplify", "downsize"]), s])
@@ -250,7 +259,8 @@ def probe_battery(A, sids, variant=0):
         x = A["exprs"][0]
         sol = [["solution", s, x, BVV(v, W), [], True] for v in (0, 1, m)]
         sat = [["satisfiable", s, []]]
-        per[s] = sat + ev + mm + sol if variant == 0 else mm + sat + sol + ev
+        tru = [[c, s, t, []] for t in A["cons"][:6] for c in ("is_true", "is_false")] if A.get("truth_probes") else []
+        per[s] = sat + ev + mm + sol + tru if variant == 0 else tru + mm + sat + sol + ev
     if variant != 2:
         return [q for s in sids for q in per[s]]
     P = []
@@ -576,7 +586,8 @@ def main():
             cls, kw = rng.choice(job["classes"])
             H = random_history(rng, A, cls, kw, rng.randint(2, job["len"]), multi=job.get("multi", False),
                                pick=job.get("pickle", False), unsat_core=bool(kw.get("track")),
-                               foldable=job.get("foldable", False), branchy=job.get("branchy", False))
+                               foldable=job.get("foldable", False), branchy=job.get("branchy", False),
+                               truthy=job.get("truthy", False))
             if job.get("faults") and len(H) > 2:
                 # arm one fault before a random query
                 pos = rng.randrange(1, len(H))
@@ -641,6 +652,9 @@ def continue_history(PH, S, meta, vars_, cfg):
             elif call == "solution":
                 e["e"], e["v"] = op[2], op[3]
                 e["ret"] = [[vbits(bool(sol.solution(B(op[2]), B(op[3]), **xk)), None)]]
+            elif call in ("is_true", "is_false"):
+                e["e"] = op[2]
+                e["ret"] = [[vbits(bool(getattr(sol, call)(B(op[2]), **xk)), None)]]
             elif call == "unsat_core":
                 held = list(sol.constraints)
                 for ch in getattr(sol, "_solver_list", []) or []:
